@@ -667,7 +667,7 @@ def paren_terms(text):
 
 def hoist_dims(text):
     """the compound array dimensions `(Fld.…Rows …)` (closed terms over the size parameters) become lets at the top of the definition"""
-    dims = sorted(set(t for t in paren_terms(text) if t[1:].split(' ')[0] in DIM_HEADS), key=len)
+    dims = sorted(set(t for t in paren_terms(text) if t[1:].split(' ')[0] in DIM_HEADS), key=lambda t: (len(t), t))
     names, lets = [], []
     for k, t in enumerate(dims):
         rhs = t
